@@ -46,6 +46,8 @@ VdTok == { <<k>> : k \in {65, 33, 8, 9, 10, 11, 12, 13, 17, 20, 30, 127} } \cup 
 M7Tok == { <<k>> : k \in {65, 8, 9, 10, 11, 12, 13, 30, 127, 129, 136, 137, 140, 141, 145, 152, 153, 154, 156, 157, 158, 159, 161, 255, 128} }
 AtaTok == { <<k>> : k \in {65, 193, 28, 29, 30, 31, 125, 126, 127, 155, 156, 157, 253, 254, 255} } \cup { <<27, k>> : k \in {27, 125, 65} }
 
+\* CSI 8 ; rows ; cols t: the terminal's size changes under the cursor, the margins, the tab stops and the stored rows
+ResizeTok == { Csi(<<56, 59>> \o P2(h, w), <<116>>) : h \in {1, H, H + 1}, w \in {1, W, W + 1} }
 Big == {<<54, 53, 53, 51, 54>>, <<57, 57, 57, 57, 57, 57, 57, 57, 57, 57, 57>>}      \* "65536", "99999999999" (saturates at 2147483599)
 Huge == { Csi(b, <<f>>) : b \in Big, f \in {64, 80, 76, 77, 83, 84, 98, 89, 90, 88, 65, 66, 67, 68, 69, 70, 71, 100, 101, 97, 114} }
         \cup { Csi(b, <<32, 64>>) : b \in Big } \cup { Csi(b, <<32, 65>>) : b \in Big } \cup { Csi(<<49, 59>> \o b, <<114>>) : b \in Big } \cup { Csi(<<49, 59>> \o b, <<115>>) : b \in Big }
@@ -58,6 +60,8 @@ Toks == CASE Slice = "huge"    -> Huge
           [] Slice = "tabs"    -> TabTok \cup Printable \cup Cup \cup { <<10>>, <<13>>, <<27, 99>> }
           [] Slice = "margins" -> Stbm \cup Lrm \cup SlSr \cup { Csi(P1(n), <<f>>) : n \in {1, 2}, f \in {65, 66, 83, 84, 76, 77} } \cup { <<10>>, <<27, 68>>, <<27, 77>>, <<27, 69>>, <<65>>, <<12>>, <<27, 91, 63, 54, 57, 104>> } \cup Cup
           [] Slice = "content" -> Printable \cup Rect \cup Sgr1 \cup C0 \cup Modes \cup { Csi(P1(n), <<f>>) : n \in {1, 2}, f \in {64, 80, 88, 98, 97, 39, 71} } \cup { Csi(<<>>, <<f>>) : f \in {74, 75, 64} }
+          [] Slice = "resize"  -> ResizeTok \cup Cup \cup C0 \cup Printable \cup { Csi(P1(n), <<f>>) : n \in {1, 2}, f \in {64, 80, 88, 98, 67, 66, 71, 100, 76, 77} } \cup { Csi(<<>>, <<f>>) : f \in {74, 75} }
+                                    \cup { Csi(P2(1, 2), <<114>>), Csi(P2(1, 2), <<115>>), <<27, 91, 63, 54, 57, 104>>, <<27, 72>> }
           [] Slice = "avatar"  -> Avt \cup Printable \cup { <<10>>, <<13>> } \cup Cup
           [] Slice = "petscii" -> PetTok
           [] Slice = "viewdata" -> VdTok
@@ -75,6 +79,12 @@ Next == /\ Len(hist) < MaxHist
 Spec == Init /\ [][Next]_vars
 
 InScreen == CaretInScreen(st)
+\* a resize leaves the cursor where it was (ResizeKeepsCaret): C09 is stated for streams that do not resize
+Resized == \E i \in 1..Len(hist) : hist[i] \in ResizeTok
+InScreenR == Resized \/ CaretInScreen(st)
+SaneR == /\ st.tw >= 1 /\ st.th >= 1 /\ st.lh >= 1
+         /\ \A i \in 1..Len(st.rows) : \A j \in 1..Len(st.rows[i]) : Scalar(st.rows[i][j][1])
+BoundedR == st.bh <= H + 3 /\ Len(st.rows) <= H + 4 /\ (\A i \in 1..Len(st.rows) : Len(st.rows[i]) <= W + 3) /\ Len(st.pal) <= 17
 Sane == /\ st.tw >= 1 /\ st.th >= 1 /\ st.bh >= st.th /\ st.lh >= 1
         /\ \A i \in 1..Len(st.rows) : \A j \in 1..Len(st.rows[i]) : Scalar(st.rows[i][j][1])
 \* C03 on the model: one token never grows the row table or a row by more than a screenful plus one macro expansion (the macro
@@ -100,5 +110,6 @@ MarginCls == IF st.mtb = <<>> THEN "none" ELSE IF st.mtb[2] < 0 THEN "neg" ELSE 
 LrCls == IF st.mlr = <<>> THEN "none" ELSE IF st.mlr[2] >= st.tw THEN "big" ELSE IF st.mlr[1] >= st.mlr[2] THEN "one" ELSE "norm"
 TabCls == IF st.tabs = <<>> THEN "none" ELSE IF Len(st.tabs) = 1 THEN "one" ELSE "many"
 GenView == << Cls(st.x, 0, st.tw - 1), Cls(st.y, First(st), First(st) + st.th - 1), RowCls, MarginCls, LrCls, TabCls, st.bh > st.th, st.im, st.aw, st.dm, st.ls, Len(st.rows) > st.lh, st.ca.bg # 0 >>
+GenViewR == <<GenView, st.tw, st.th, Cls(st.x, 0, st.lw - 1)>>
 Emit == IF hist = <<>> THEN PrintT(<<"ALPHABET", ToJson([toks |-> SetToSeq(Toks)])>>) ELSE PrintT(<<"WITNESS", ToJson([hist |-> hist])>>)
 =============================================================================
